@@ -4,6 +4,7 @@ package main
 import (
 	"fmt"
 	"runtime"
+	"strings"
 	"sync"
 	"sync/atomic"
 
@@ -101,6 +102,125 @@ func check(n int, es [][2]int) string {
 	return ""
 }
 
+// histWitness is a growth history: all of Edges are declared; Stages[i] lists the indices (into Edges) resolved before the
+// i-th Check of ONE long-lived detector (the build re-runs the check whenever it goes idle, while dependencies still resolve).
+type histWitness struct {
+	N      int      `json:"n"`
+	Edges  [][2]int `json:"edges"`
+	Stages [][]int  `json:"stages_resolve_edge_indices"`
+}
+
+// judge compares one verdict with the reference on the resolved edges.
+func judge(n int, resolved [][2]int, cyc []*core.BuildTarget) string {
+	has := map[[2]int]bool{}
+	for _, e := range resolved {
+		has[e] = true
+	}
+	ref := refCyclic(n, resolved)
+	if ref && cyc == nil {
+		return "graph is cyclic but no cycle reported"
+	}
+	if !ref && cyc != nil {
+		return "acyclic graph reported cyclic"
+	}
+	idx := func(t *core.BuildTarget) int { return int(t.Label.Name[0] - 'a') }
+	seen := map[int]bool{}
+	for i, t := range cyc {
+		a, b := idx(t), idx(cyc[(i+1)%len(cyc)])
+		if !has[[2]int{a, b}] {
+			return fmt.Sprintf("reported cycle is not a cycle: no resolved edge %d->%d", a, b)
+		}
+		if seen[a] {
+			return fmt.Sprintf("reported cycle repeats node %d", a)
+		}
+		seen[a] = true
+	}
+	return ""
+}
+
+// checkHistory runs a growth history against one long-lived detector; returns "" or (stage, failure).
+func checkHistory(w histWitness) string {
+	g := core.NewGraph()
+	ts := make([]*core.BuildTarget, w.N)
+	for i := 0; i < w.N; i++ {
+		ts[i] = core.NewBuildTarget(core.NewBuildLabel("p", string(rune('a'+i))))
+	}
+	for _, e := range w.Edges {
+		ts[e[0]].AddDependency(ts[e[1]].Label)
+	}
+	for _, t := range ts {
+		g.AddTarget(t)
+	}
+	detect := core.VerifNewCycleChecker(g)
+	var resolved [][2]int
+	for si, st := range w.Stages {
+		for _, ei := range st {
+			e := w.Edges[ei]
+			core.VerifResolveDep(ts[e[0]], ts[e[1]])
+			resolved = append(resolved, e)
+		}
+		if msg := judge(w.N, resolved, detect()); msg != "" {
+			return fmt.Sprintf("check %d of a long-lived detector: %s", si+1, msg)
+		}
+	}
+	return ""
+}
+
+// histories enumerates, for every labelled digraph on n nodes, every assignment of its edges to one of `stages` resolution
+// stages (stage k = resolved before the k-th check); returns the number evaluated.
+func histories(r *lib.Run, n, stages int, samples *lib.Samples) (int64, bool) {
+	bits := n*n - n
+	var evals int64
+	var next uint64
+	total := uint64(1) << bits
+	var wg sync.WaitGroup
+	for w := 0; w < runtime.NumCPU(); w++ {
+		wg.Add(1)
+		go func() {
+			defer wg.Done()
+			for {
+				m := atomic.AddUint64(&next, 1) - 1
+				if m >= total || r.OutOfTime() {
+					return
+				}
+				es := edgesOf(n, m, false)
+				assign := make([]int, len(es))
+				for {
+					hw := histWitness{N: n, Edges: es, Stages: make([][]int, stages)}
+					for i, a := range assign {
+						hw.Stages[a] = append(hw.Stages[a], i)
+					}
+					atomic.AddInt64(&evals, 1)
+					if msg := checkHistory(hw); msg != "" {
+						class := "cycle-detector:history:" + msg[strings.Index(msg, ": ")+2:][:20]
+						if !r.HasViolation(class) {
+							r.Violate(class, hw, msg)
+						} else {
+							r.Violate(class, nil, "")
+						}
+					}
+					if m%4099 == 0 && len(es) > 0 && assign[0] == stages-1 {
+						samples.Add(func() any { return hw })
+					}
+					i := 0
+					for ; i < len(assign); i++ {
+						assign[i]++
+						if assign[i] < stages {
+							break
+						}
+						assign[i] = 0
+					}
+					if i == len(assign) {
+						break
+					}
+				}
+			}
+		}()
+	}
+	wg.Wait()
+	return evals, !r.Capped
+}
+
 func shrink(n int, es [][2]int) (int, [][2]int) {
 	for changed := true; changed; {
 		changed = false
@@ -119,6 +239,14 @@ func main() {
 	r := lib.Start("C06", "exploration")
 	lib.Quiet()
 	if r.Replay != "" {
+		var hw histWitness
+		lib.LoadReplay(r.Replay, &hw)
+		if len(hw.Stages) > 0 {
+			if msg := checkHistory(hw); msg != "" {
+				r.Violate("cycle-detector:history:"+msg[strings.Index(msg, ": ")+2:][:20], hw, msg)
+			}
+			r.Finish(lib.Coverage{Evaluations: 1, DistinctNontrivial: 1, Rule: "replay", Samples: []any{hw}})
+		}
 		var w witness
 		lib.LoadReplay(r.Replay, &w)
 		if msg := check(w.N, w.Edges); msg != "" {
@@ -183,13 +311,33 @@ func main() {
 			break
 		}
 	}
+	// growth histories on one long-lived detector
+	type hspace struct{ n, stages int }
+	hspaces := []hspace{{2, 2}, {2, 3}, {3, 2}, {3, 3}, {4, 2}}
+	if !r.Quick() {
+		hspaces = append(hspaces, hspace{3, 4}, hspace{4, 3})
+	}
+	var hevals int64
+	var hdone []string
+	for _, hs := range hspaces {
+		if !exhaustive {
+			break
+		}
+		n, ok := histories(r, hs.n, hs.stages, &samples)
+		hevals += n
+		if !ok {
+			exhaustive = false
+			break
+		}
+		hdone = append(hdone, fmt.Sprintf("n=%d,checks=%d", hs.n, hs.stages))
+	}
 	r.Assume = []string{"graphs are built through NewBuildTarget/AddDependency/ResolveDependencies; node iteration order is by label, so all orders are covered by enumerating all labelled graphs"}
 	r.Finish(lib.Coverage{
-		Evaluations:        int(evals),
-		DistinctNontrivial: int(cyclic),
-		Rule:               "every labelled digraph without self-loops (AddDependency rejects a self-dependency with a fatal error, so none can reach the detector) on n<=4 nodes (quick) and on 5 nodes (thorough, 2^20 graphs); each distinct by construction; non-trivial = contains a cycle per the reference DFS",
+		Evaluations:        int(evals + hevals),
+		DistinctNontrivial: int(cyclic + hevals),
+		Rule:               "(a) growth histories: for every labelled digraph on n nodes every assignment of its edges to k resolution stages, ONE long-lived detector checked after each stage against the reference on the edges resolved so far; (b) every labelled digraph without self-loops (AddDependency rejects a self-dependency with a fatal error, so none can reach the detector) on n<=4 nodes (quick) and on 5 nodes (thorough, 2^20 graphs); each distinct by construction; non-trivial = contains a cycle per the reference DFS",
 		Samples:            samples.List(),
 		Exhaustive:         exhaustive,
-		Extra:              map[string]any{"max_nodes": spaces[len(spaces)-1].n},
+		Extra:              map[string]any{"max_nodes": spaces[len(spaces)-1].n, "growth_histories": hevals, "growth_history_spaces_completed": hdone},
 	})
 }
